@@ -751,6 +751,14 @@ func (r *Repository) MergeMutable(x *Repository) (mutated bool, err error) {
 		}
 	}
 
+	// Metadata feeds the meta.<field> filters. When the caller describes it
+	// (non-nil), it describes it completely, so it is replaced rather than
+	// merged key by key.
+	if x.Metadata != nil && !reflect.DeepEqual(r.Metadata, x.Metadata) {
+		mutated = true
+		r.Metadata = x.Metadata
+	}
+
 	if r.URL != x.URL {
 		mutated = true
 		r.URL = x.URL
